@@ -707,6 +707,8 @@ pub fn write_val(v: &Val, data: &[u8], w: &mut Writer) -> io::Result<usize> {
         Val::Int { ty, image } => with_int!(*ty, *image, x, x.write_to(w)),
         Val::Bytes { .. } => data.write_to(w),
         Val::Addr(a) => imp::mk_addr2(a).write_to(w),
+        // an owned TLV (Cow::Owned, as `to_owned()` gives) when the value length is odd, a borrowed one otherwise
+        Val::Tlv { kind, .. } if data.len() % 2 == 1 => TypeLengthValue::new(*kind, data).to_owned().write_to(w),
         Val::Tlv { kind, .. } => TypeLengthValue::new(*kind, data).write_to(w),
         Val::TupleU8 { kind, .. } => (*kind, data).write_to(w),
         Val::TupleType { ty, .. } => (TYPES[*ty], data).write_to(w),
@@ -731,6 +733,7 @@ pub fn to_bytes_val(v: &Val, data: &[u8]) -> io::Result<Vec<u8>> {
         Val::Int { ty, image } => with_int!(*ty, *image, x, x.to_bytes()),
         Val::Bytes { .. } => data.to_bytes(),
         Val::Addr(a) => imp::mk_addr2(a).to_bytes(),
+        Val::Tlv { kind, .. } if data.len() % 2 == 1 => TypeLengthValue::new(*kind, data).to_owned().to_bytes(),
         Val::Tlv { kind, .. } => TypeLengthValue::new(*kind, data).to_bytes(),
         Val::TupleU8 { kind, .. } => (*kind, data).to_bytes(),
         Val::TupleType { ty, .. } => (TYPES[*ty], data).to_bytes(),
@@ -759,7 +762,7 @@ fn payload(b: Builder, v: &Val, data: &[u8], by_ref: bool) -> io::Result<Builder
             }
         }
         Val::Tlv { kind, .. } => {
-            let tlv = TypeLengthValue::new(*kind, data);
+            let tlv = if data.len() % 2 == 1 { TypeLengthValue::new(*kind, data).to_owned() } else { TypeLengthValue::new(*kind, data) };
             if by_ref {
                 b.write_payload(&tlv)
             } else {
@@ -901,7 +904,17 @@ pub fn execute(h: &History) -> Trace {
                     if *native && homogeneous(vs) {
                         batch_native(b, vs, &datas)
                     } else {
-                        b.write_payloads(vs.iter().zip(datas.iter()).map(|(v, d)| AnyP(v, d.as_slice())))
+                        // the same batch through iterators with different size hints: exact (map), lower bound 0 (filter),
+                        // no bounds at all (from_fn)
+                        let items = vs.iter().zip(datas.iter()).map(|(v, d)| AnyP(v, d.as_slice()));
+                        match vs.len() % 3 {
+                            1 => b.write_payloads(items.filter(|_| true)),
+                            2 => {
+                                let mut it = items;
+                                b.write_payloads(std::iter::from_fn(move || it.next()))
+                            }
+                            _ => b.write_payloads(items),
+                        }
                     }
                 }
                 Op::WriteTlv { kind, len, seed } => b.write_tlv(*kind, &fill(*seed, *len)),
